@@ -154,6 +154,66 @@ PROPS = {
         "assumptions": ["the f64 expression of compute_probe_location is an arbitrary function in the theorems",
                         "sort_unstable_by_key order among equal truncated chunk hashes is canonicalised before comparison"],
     },
+    "C19": {
+        "modules": ["XetProps.C19"],
+        "theorems": [
+            "Xet.CrashFS.C19_crash_states",
+            "Xet.CrashFS.C19_crash_states_ends",
+            "Xet.CrashFS.C19_leftovers_invisible",
+            "Xet.CrashFS.C19_final_names",
+            "Xet.CrashFS.C19_name_identifies_content",
+            "Xet.CrashFS.C19_prefix_safe_flush",
+            "Xet.CrashFS.C19_prefix_safe_write_out",
+            "Xet.CrashFS.C19_prefix_safe_union",
+            "Xet.CrashFS.C19_any_history_shard",
+            "Xet.CrashFS.C19_prefix_safe_consolidate",
+            "Xet.CrashFS.C19_consolidateFx",
+            "Xet.CrashFS.C19_rounds_agree_with_C10",
+            "Xet.CrashFS.C19_covers_records",
+            "Xet.CrashFS.C19_prefix_safe_safe_file",
+            "Xet.CrashFS.C19_prefix_safe_local_put",
+            "Xet.CrashFS.C19_prefix_safe_cache_put",
+            "Xet.CrashFS.C19_cache_item_name",
+            "Xet.CrashFS.C19_reopen_inv_shard",
+            "Xet.CrashFS.C19_reopen_inv_cache",
+        ],
+        "suites": ["crash"],
+        "level_text": "For every operation that publishes a file under a final name (shard flush, write_out_from_reader, shard_file_op, "
+                      "consolidate_shards_in_directory, SafeFileCreator, LocalClient::put, DiskCache::put) the Rust code is compiled to its "
+                      "sequence of file-system effects (create tmp, one append per write call, rename, unlink, mkdir/rmdir/chmod); theorems over EVERY "
+                      "prefix of that sequence (every crash point), every split of the buffered writes, every temp name, every eviction choice and "
+                      "every prior directory state satisfying the component's invariant: (a) every file under a final name is consistent with its name "
+                      "(shard: name = data hash of content and a valid shard; xorb: validates for the hash in its name; cache item: length and CRC of "
+                      "its name), nothing but the complete new content ever appears under the final name; (b) every final-named file of the start "
+                      "state is still there unchanged, or (consolidation / subsuming cache put) a final-named file holding all its records is there: "
+                      "the merged shard is renamed into place before any input is unlinked and is never unlinked itself; (c) temp names are matched "
+                      "by none of the restart scans, the cache scan removes them; the invariant is re-established after restart and holds after any "
+                      "history of interrupted writes. 'Name = content hash' only in collision-extraction form (alternative conclusion: an explicit "
+                      "data-hash collision). Tied to the Rust by killing a child process with strace signal injection right before each of its "
+                      "state-changing system calls (all crash points in the quick tier), comparing the observed effect sequence with the model's "
+                      "(trace inclusion) and the real directory after the kill with the model's crash state, and running retrievability monitors with "
+                      "the real loaders (ShardFileManager, MDBShardFile::load_all_valid, LocalClient, DiskCache) on the crashed directory. "
+                      "Partial: the crash model is the property's own (completed system calls persist, rename atomic, no torn page cache, single "
+                      "writer); fsync / directory-entry durability after power loss are outside any executable model here; clause (b) for items "
+                      "subsumed by a cache put rests on the stated coverage hypothesis about the caller's data (ranges of one content-addressed xorb).",
+        "design_ref": "DESIGN.md section 4, C19",
+        "technique": "Lean 4 proof (frame lemma for write-temp-then-rename, induction over consolidation rounds, all prefixes) + crash-injecting "
+                     "differential correspondence (strace -e inject=<syscall>:signal=SIGKILL:when=<n>)",
+        "rule": "cases = (operation in {flush, writeout, consolidate, union, localput, cacheput, safefile}) x (3-5 prior histories each: empty dir, "
+                "existing files, leftover temp of an earlier crash, identical content already present, guard cases (merge reproduces an input; "
+                "directory left by an earlier killed consolidation), subsuming and evicting cache puts, replace_existing / new_unnamed) x (4 data seeds, "
+                "16 thorough) x (every crash point k = 1..N, N = 2..16 per scenario; quick = all k if N <= 40); distinct by hash(op, history, effect "
+                "sequence); non-trivial = at least 2 crash points",
+        "assumptions": ["crash model: a completed system call persists, rename is atomic and replaces the target, the page cache is never torn, "
+                        "no other process writes to the directory during the operation (C12/C13 cover concurrent cache users)",
+                        "SafeFileCreator opens its temp file without O_TRUNC: modelled as creating an empty file, i.e. the 10-character random "
+                        "temp name is assumed not to exist yet",
+                        "cache, clause (b) for subsumed items: hypothesis hover/hsub (the new item's data covers the data of the items it subsumes)",
+                        "validity of the written bytes is an input of the write theorems (flush: serialization of a well-formed content, proved; "
+                        "write_out_from_reader / LocalClient::put: hypothesis V / Vx on the bytes handed in, discharged by C09/C10 resp. C08)",
+                        "strace counts `when=` per thread and per system call; the suite derives every crash point's ordinal from a dry run and "
+                        "checks that no other thread reaches it (otherwise key strace-failed)"],
+    },
     "C20": {
         "modules": ["XetProps.C20"],
         "theorems": [
